@@ -13,7 +13,11 @@ def np_table(c, dtype=None):
             return [conv(x) for x in t]
         return oracles.num(t)
 
-    return np.array(conv(c["table"])) if dtype is None else np.array(conv(c["table"]), dtype=dtype)
+    arr = np.array(conv(c["table"])) if dtype is None else np.array(conv(c["table"]), dtype=dtype)
+    if c.get("layout") == "F":
+        # same values, column-major memory (what a transposed view or np.asfortranarray hands over)
+        arr = np.asfortranarray(arr)
+    return arr
 
 
 def build_domains(desc):
